@@ -9,22 +9,38 @@ use serde_json::json;
 /// violation; a tool failure is inconclusive.
 pub fn run_slices(rep: &Report, what: &str, shards: usize, n: usize, flags: &str) -> Vec<String> {
     let dir = verif_root().join("miri_slice");
+    // Every copy of /verif builds into its own target directory and tells the build script
+    // where it lives: artifacts (and cargo-miri's recorded working directory) of another
+    // copy are never reused.
+    let target_dir = verif_root().join(".build/miri");
+    let target_dir = target_dir.to_string_lossy().to_string();
     // Build once (sequentially) so that the parallel runs do not fight over the lock.
     let build = std::process::Command::new("cargo")
-        .args(["+nightly", "miri", "run", "--offline", "--", "noop"])
+        .args(["+nightly", "miri", "run", "--offline", "--target-dir", &target_dir, "--", "noop"])
         .current_dir(&dir)
         .env("CARGO_NET_OFFLINE", "true")
+        .env("VERIF_SLICE_ROOT", &dir)
         .env_remove("RUSTFLAGS")
         .output();
-    if build.is_err() {
-        rep.inconclusive("miri not runnable");
-        return vec![];
+    match &build {
+        Err(_) => {
+            rep.inconclusive("miri not runnable");
+            return vec![];
+        }
+        Ok(o) if !o.status.success() => {
+            rep.inconclusive("miri slice could not be built / started (tool problem)");
+            rep.note(format!("miri {} build: {}", what, String::from_utf8_lossy(&o.stderr).lines().rev().take(4).collect::<Vec<_>>().join(" | ").chars().take(1500).collect::<String>()));
+            return vec![];
+        }
+        Ok(_) => {}
     }
     let res = par_map(shards, crate::util::ncpu(), |sh| {
         let out = std::process::Command::new("cargo")
-            .args(["+nightly", "miri", "run", "--offline", "--", what, &sh.to_string(), &shards.to_string(), &n.to_string()])
+            .args(["+nightly", "miri", "run", "--offline", "--target-dir", &target_dir, "--", what, &sh.to_string(), &shards.to_string(), &n.to_string()])
             .current_dir(&dir)
             .env("CARGO_NET_OFFLINE", "true")
+            .env("VERIF_SLICE_ROOT", &dir)
+            .env_remove("RUSTFLAGS")
             .env("MIRIFLAGS", format!("{} -Zmiri-seed={}", flags, sh))
             .output();
         match out {
